@@ -393,3 +393,628 @@ Proof. exact C16i_double_fftshift_odd. Qed.
 Example C16_unrepaired_double_fftshift_even_ok : forall (a : nat -> nat -> nat) (n1 n2 : nat),
   n1 < 4 -> n2 < 6 -> fftshift2 4 6 (fftshift2 4 6 a) n1 n2 = a n1 n2.
 Proof. exact C16i_double_fftshift_even. Qed.
+
+(* ==============================================================================================
+   ROUND 3 — the kernels as SHAPES over an abstract character, the whole forward pass, gradient_step,
+   several slices.  (model/C16_Model_Kernel.v, proof/C16_Proofs_Kernel.v)
+
+   P is a commutative ring of phases in turns (Q in the check's instance C16K), E : P -> R stands for
+   t |-> exp(2 pi i t) and is used ONLY through E (a + b) = E a * E b, E 0 = 1, conj (E a) = E (- a).
+     shift_ramp f s k        = E (-(f k * s))                                fourier_translation_operator
+     fresnel_kernel_code ... = E (-(chalf lam dz (kr^2 + kc^2))) [* E (-(dz tr kr))] [* E (-(dz tc kc))]
+                                                                             _compute_propagator_arrays
+   (chalf = 1/2, lam the wavelength, tr tc the tangents of the tilt angles, fr fc ANY frequency grids; br bc say
+   whether the tilt factors are applied).  Unit modulus, inverse and additivity are now CONSEQUENCES of
+   the shape; the shape itself is tied to the code by comparing the model's rational phases with the
+   angle of the arrays the implementation builds (harness/props/C16.py, kinds ramp-phase / kernel-phase). *)
+From Coq Require Import QArith.
+From QV.model Require Import C16_Model_Kernel.
+From QV.proof Require Import C16_Proofs_Kernel C16_Proofs_Kernel_Inst.
+Local Close Scope Q_scope.
+
+(* fourier_shift_expand with the ramp the code builds, exp(-2 pi i f_k s) = E(-(f_k s)), keeps the total
+   intensity for EVERY shift vector and frequency grid: no unit-modulus hypothesis is left (derived from the shape) *)
+Theorem C16_ramp_translate_energy :
+  forall (R : Type) (rO rI : R) (radd rmul rsub : R -> R -> R) (ropp : R -> R),
+  ring_theory rO rI radd rmul rsub ropp eq ->
+  forall conj : R -> R,
+  conj_ok radd rmul conj ->
+  forall (N1 : nat) (w1 : Z -> R) (Ninv1 : R) (N2 : nat) (w2 : Z -> R) (Ninv2 : R),
+  root_ok rO rI radd rmul conj N1 w1 Ninv1 ->
+  root_ok rO rI radd rmul conj N2 w2 Ninv2 ->
+  forall (P : Type) (pO pI : P) (padd pmul psub : P -> P -> P) (popp : P -> P),
+  ring_theory pO pI padd pmul psub popp eq ->
+  forall E : P -> R,
+  (forall a b : P, E (padd a b) = rmul (E a) (E b)) ->
+  E pO = rI ->
+  (forall a : P, conj (E a) = E (popp a)) ->
+  forall (f1 f2 : nat -> P) (s1 s2 : P) (x : nat -> nat -> R),
+  energy2 rO radd rmul conj N1 N2
+    (fourier_shift rO radd rmul N1 w1 Ninv1 N2 w2 Ninv2 (shift_ramp pmul popp E f1 s1)
+       (shift_ramp pmul popp E f2 s2) x) = energy2 rO radd rmul conj N1 N2 x.
+Proof. exact ramp_translate_energy. Qed.
+Print Assumptions C16_ramp_translate_energy.
+
+(* shifting by t and then by s is shifting by s + t (addition of the phase ring, e.g. Q) *)
+Theorem C16_ramp_translate_additive :
+  forall (R : Type) (rO rI : R) (radd rmul rsub : R -> R -> R) (ropp : R -> R),
+  ring_theory rO rI radd rmul rsub ropp eq ->
+  forall conj : R -> R,
+  conj_ok radd rmul conj ->
+  forall (N1 : nat) (w1 : Z -> R) (Ninv1 : R) (N2 : nat) (w2 : Z -> R) (Ninv2 : R),
+  root_ok rO rI radd rmul conj N1 w1 Ninv1 ->
+  root_ok rO rI radd rmul conj N2 w2 Ninv2 ->
+  forall (P : Type) (pO pI : P) (padd pmul psub : P -> P -> P) (popp : P -> P),
+  ring_theory pO pI padd pmul psub popp eq ->
+  forall E : P -> R,
+  (forall a b : P, E (padd a b) = rmul (E a) (E b)) ->
+  E pO = rI ->
+  (forall a : P, conj (E a) = E (popp a)) ->
+  forall (f1 f2 : nat -> P) (s1 s2 t1 t2 : P) (x : nat -> nat -> R),
+  eq2 R N1 N2
+    (fourier_shift rO radd rmul N1 w1 Ninv1 N2 w2 Ninv2 (shift_ramp pmul popp E f1 s1)
+       (shift_ramp pmul popp E f2 s2)
+       (fourier_shift rO radd rmul N1 w1 Ninv1 N2 w2 Ninv2 (shift_ramp pmul popp E f1 t1)
+          (shift_ramp pmul popp E f2 t2) x))
+    (fourier_shift rO radd rmul N1 w1 Ninv1 N2 w2 Ninv2 (shift_ramp pmul popp E f1 (padd s1 t1))
+       (shift_ramp pmul popp E f2 (padd s2 t2)) x).
+Proof. exact ramp_translate_additive. Qed.
+Print Assumptions C16_ramp_translate_additive.
+
+(* shifting by a vector and then by its negative restores the array *)
+Theorem C16_ramp_translate_inverse :
+  forall (R : Type) (rO rI : R) (radd rmul rsub : R -> R -> R) (ropp : R -> R),
+  ring_theory rO rI radd rmul rsub ropp eq ->
+  forall conj : R -> R,
+  conj_ok radd rmul conj ->
+  forall (N1 : nat) (w1 : Z -> R) (Ninv1 : R) (N2 : nat) (w2 : Z -> R) (Ninv2 : R),
+  root_ok rO rI radd rmul conj N1 w1 Ninv1 ->
+  root_ok rO rI radd rmul conj N2 w2 Ninv2 ->
+  forall (P : Type) (pO pI : P) (padd pmul psub : P -> P -> P) (popp : P -> P),
+  ring_theory pO pI padd pmul psub popp eq ->
+  forall E : P -> R,
+  (forall a b : P, E (padd a b) = rmul (E a) (E b)) ->
+  E pO = rI ->
+  (forall a : P, conj (E a) = E (popp a)) ->
+  forall (f1 f2 : nat -> P) (s1 s2 : P) (x : nat -> nat -> R),
+  eq2 R N1 N2
+    (fourier_shift rO radd rmul N1 w1 Ninv1 N2 w2 Ninv2 (shift_ramp pmul popp E f1 (popp s1))
+       (shift_ramp pmul popp E f2 (popp s2))
+       (fourier_shift rO radd rmul N1 w1 Ninv1 N2 w2 Ninv2 (shift_ramp pmul popp E f1 s1)
+          (shift_ramp pmul popp E f2 s2) x)) x.
+Proof. exact ramp_translate_inverse. Qed.
+Print Assumptions C16_ramp_translate_inverse.
+
+(* integer shift vectors: where the character meets the root family (exp(-2 pi i fftfreq(k) s) = w^(k s) for
+   integer s) the ramp translation is np.roll *)
+Theorem C16_ramp_integer_is_roll :
+  forall (R : Type) (rO rI : R) (radd rmul rsub : R -> R -> R) (ropp : R -> R),
+  ring_theory rO rI radd rmul rsub ropp eq ->
+  forall conj : R -> R,
+  conj_ok radd rmul conj ->
+  forall (N1 : nat) (w1 : Z -> R) (Ninv1 : R) (N2 : nat) (w2 : Z -> R) (Ninv2 : R),
+  root_ok rO rI radd rmul conj N1 w1 Ninv1 ->
+  root_ok rO rI radd rmul conj N2 w2 Ninv2 ->
+  forall (P : Type) (pO pI : P) (padd pmul psub : P -> P -> P) (popp : P -> P),
+  ring_theory pO pI padd pmul psub popp eq ->
+  forall E : P -> R,
+  (forall a b : P, E (padd a b) = rmul (E a) (E b)) ->
+  E pO = rI ->
+  (forall a : P, conj (E a) = E (popp a)) ->
+  forall (ofZ : Z -> P) (f1 f2 : nat -> P) (s1 s2 : Z) (x : nat -> nat -> R),
+  (forall k : nat, k < N1 -> E (ramp_phase pmul popp (f1 k) (ofZ s1)) = w1 (Z.of_nat k * s1)%Z) ->
+  (forall k : nat, k < N2 -> E (ramp_phase pmul popp (f2 k) (ofZ s2)) = w2 (Z.of_nat k * s2)%Z) ->
+  eq2 R N1 N2
+    (fourier_shift rO radd rmul N1 w1 Ninv1 N2 w2 Ninv2 (shift_ramp pmul popp E f1 (ofZ s1))
+       (shift_ramp pmul popp E f2 (ofZ s2)) x) (roll2 N1 N2 s1 s2 x).
+Proof. exact ramp_integer_is_roll. Qed.
+Print Assumptions C16_ramp_integer_is_roll.
+
+(* the propagator as coded (product of exponentials, tilt factors skipped when the tilt angle is 0) is the single
+   exponential E(-(1/2) lambda dz (kr^2 + kc^2) - dz (tan_r kr + tan_c kc)) of the Fresnel phase *)
+Theorem C16_fresnel_kernel_shape :
+  forall (R : Type) (rO rI : R) (radd rmul rsub : R -> R -> R) (ropp : R -> R),
+  ring_theory rO rI radd rmul rsub ropp eq ->
+  forall conj : R -> R,
+  conj_ok radd rmul conj ->
+  forall (N1 : nat) (w1 : Z -> R) (Ninv1 : R) (N2 : nat) (w2 : Z -> R) (Ninv2 : R),
+  root_ok rO rI radd rmul conj N1 w1 Ninv1 ->
+  root_ok rO rI radd rmul conj N2 w2 Ninv2 ->
+  forall (P : Type) (pO pI : P) (padd pmul psub : P -> P -> P) (popp : P -> P),
+  ring_theory pO pI padd pmul psub popp eq ->
+  forall E : P -> R,
+  (forall a b : P, E (padd a b) = rmul (E a) (E b)) ->
+  E pO = rI ->
+  (forall a : P, conj (E a) = E (popp a)) ->
+  forall (chalf lam : P) (br bc : bool) (tr tc : P) (fr fc : nat -> P) (dz : P) (k1 k2 : nat),
+  (br = false -> tr = pO) ->
+  (bc = false -> tc = pO) ->
+  fresnel_kernel_code rmul padd pmul popp E chalf lam br bc tr tc fr fc dz k1 k2 =
+  fresnel_kernel padd pmul popp E chalf lam tr tc fr fc dz k1 k2.
+Proof. exact fresnel_code_shape. Qed.
+Print Assumptions C16_fresnel_kernel_shape.
+
+(* the conjugate kernel (used by the analytic back-propagation) is the kernel of the negated distance *)
+Theorem C16_fresnel_conj_is_negated_distance :
+  forall (R : Type) (rO rI : R) (radd rmul rsub : R -> R -> R) (ropp : R -> R),
+  ring_theory rO rI radd rmul rsub ropp eq ->
+  forall conj : R -> R,
+  conj_ok radd rmul conj ->
+  forall (N1 : nat) (w1 : Z -> R) (Ninv1 : R) (N2 : nat) (w2 : Z -> R) (Ninv2 : R),
+  root_ok rO rI radd rmul conj N1 w1 Ninv1 ->
+  root_ok rO rI radd rmul conj N2 w2 Ninv2 ->
+  forall (P : Type) (pO pI : P) (padd pmul psub : P -> P -> P) (popp : P -> P),
+  ring_theory pO pI padd pmul psub popp eq ->
+  forall E : P -> R,
+  (forall a b : P, E (padd a b) = rmul (E a) (E b)) ->
+  E pO = rI ->
+  (forall a : P, conj (E a) = E (popp a)) ->
+  forall (chalf lam : P) (br bc : bool) (tr tc : P) (fr fc : nat -> P) (dz : P) (k1 k2 : nat),
+  conj (fresnel_kernel_code rmul padd pmul popp E chalf lam br bc tr tc fr fc dz k1 k2) =
+  fresnel_kernel_code rmul padd pmul popp E chalf lam br bc tr tc fr fc (popp dz) k1 k2.
+Proof. exact fresnel_code_conj. Qed.
+Print Assumptions C16_fresnel_conj_is_negated_distance.
+
+(* free-space propagation with the kernel the code builds keeps the total intensity for EVERY wavelength
+   (energy), distance, tilt and frequency grid (sampling): unit modulus is derived from the shape *)
+Theorem C16_fresnel_propagate_energy :
+  forall (R : Type) (rO rI : R) (radd rmul rsub : R -> R -> R) (ropp : R -> R),
+  ring_theory rO rI radd rmul rsub ropp eq ->
+  forall conj : R -> R,
+  conj_ok radd rmul conj ->
+  forall (N1 : nat) (w1 : Z -> R) (Ninv1 : R) (N2 : nat) (w2 : Z -> R) (Ninv2 : R),
+  root_ok rO rI radd rmul conj N1 w1 Ninv1 ->
+  root_ok rO rI radd rmul conj N2 w2 Ninv2 ->
+  forall (P : Type) (pO pI : P) (padd pmul psub : P -> P -> P) (popp : P -> P),
+  ring_theory pO pI padd pmul psub popp eq ->
+  forall E : P -> R,
+  (forall a b : P, E (padd a b) = rmul (E a) (E b)) ->
+  E pO = rI ->
+  (forall a : P, conj (E a) = E (popp a)) ->
+  forall (chalf lam : P) (br bc : bool) (tr tc : P) (fr fc : nat -> P) (dz : P) (x : nat -> nat -> R),
+  energy2 rO radd rmul conj N1 N2
+    (propagate rO radd rmul N1 w1 Ninv1 N2 w2 Ninv2
+       (fresnel_kernel_code rmul padd pmul popp E chalf lam br bc tr tc fr fc dz) x) =
+  energy2 rO radd rmul conj N1 N2 x.
+Proof. exact fresnel_propagate_energy. Qed.
+Print Assumptions C16_fresnel_propagate_energy.
+
+(* propagating by a distance and then by its negative is the identity *)
+Theorem C16_fresnel_propagate_inverse :
+  forall (R : Type) (rO rI : R) (radd rmul rsub : R -> R -> R) (ropp : R -> R),
+  ring_theory rO rI radd rmul rsub ropp eq ->
+  forall conj : R -> R,
+  conj_ok radd rmul conj ->
+  forall (N1 : nat) (w1 : Z -> R) (Ninv1 : R) (N2 : nat) (w2 : Z -> R) (Ninv2 : R),
+  root_ok rO rI radd rmul conj N1 w1 Ninv1 ->
+  root_ok rO rI radd rmul conj N2 w2 Ninv2 ->
+  forall (P : Type) (pO pI : P) (padd pmul psub : P -> P -> P) (popp : P -> P),
+  ring_theory pO pI padd pmul psub popp eq ->
+  forall E : P -> R,
+  (forall a b : P, E (padd a b) = rmul (E a) (E b)) ->
+  E pO = rI ->
+  (forall a : P, conj (E a) = E (popp a)) ->
+  forall (chalf lam : P) (br bc : bool) (tr tc : P) (fr fc : nat -> P) (dz : P) (x : nat -> nat -> R),
+  eq2 R N1 N2
+    (propagate rO radd rmul N1 w1 Ninv1 N2 w2 Ninv2
+       (fresnel_kernel_code rmul padd pmul popp E chalf lam br bc tr tc fr fc (popp dz))
+       (propagate rO radd rmul N1 w1 Ninv1 N2 w2 Ninv2
+          (fresnel_kernel_code rmul padd pmul popp E chalf lam br bc tr tc fr fc dz) x)) x.
+Proof. exact fresnel_propagate_inverse. Qed.
+Print Assumptions C16_fresnel_propagate_inverse.
+
+(* propagation distances add *)
+Theorem C16_fresnel_propagate_additive :
+  forall (R : Type) (rO rI : R) (radd rmul rsub : R -> R -> R) (ropp : R -> R),
+  ring_theory rO rI radd rmul rsub ropp eq ->
+  forall conj : R -> R,
+  conj_ok radd rmul conj ->
+  forall (N1 : nat) (w1 : Z -> R) (Ninv1 : R) (N2 : nat) (w2 : Z -> R) (Ninv2 : R),
+  root_ok rO rI radd rmul conj N1 w1 Ninv1 ->
+  root_ok rO rI radd rmul conj N2 w2 Ninv2 ->
+  forall (P : Type) (pO pI : P) (padd pmul psub : P -> P -> P) (popp : P -> P),
+  ring_theory pO pI padd pmul psub popp eq ->
+  forall E : P -> R,
+  (forall a b : P, E (padd a b) = rmul (E a) (E b)) ->
+  E pO = rI ->
+  (forall a : P, conj (E a) = E (popp a)) ->
+  forall (chalf lam : P) (br bc : bool) (tr tc : P) (fr fc : nat -> P) (a b : P) (x : nat -> nat -> R),
+  eq2 R N1 N2
+    (propagate rO radd rmul N1 w1 Ninv1 N2 w2 Ninv2
+       (fresnel_kernel_code rmul padd pmul popp E chalf lam br bc tr tc fr fc a)
+       (propagate rO radd rmul N1 w1 Ninv1 N2 w2 Ninv2
+          (fresnel_kernel_code rmul padd pmul popp E chalf lam br bc tr tc fr fc b) x))
+    (propagate rO radd rmul N1 w1 Ninv1 N2 w2 Ninv2
+       (fresnel_kernel_code rmul padd pmul popp E chalf lam br bc tr tc fr fc (padd a b)) x).
+Proof. exact fresnel_propagate_additive. Qed.
+Print Assumptions C16_fresnel_propagate_additive.
+
+(* back-propagation with the conjugate kernel undoes the propagation *)
+Theorem C16_fresnel_backpropagate :
+  forall (R : Type) (rO rI : R) (radd rmul rsub : R -> R -> R) (ropp : R -> R),
+  ring_theory rO rI radd rmul rsub ropp eq ->
+  forall conj : R -> R,
+  conj_ok radd rmul conj ->
+  forall (N1 : nat) (w1 : Z -> R) (Ninv1 : R) (N2 : nat) (w2 : Z -> R) (Ninv2 : R),
+  root_ok rO rI radd rmul conj N1 w1 Ninv1 ->
+  root_ok rO rI radd rmul conj N2 w2 Ninv2 ->
+  forall (P : Type) (pO pI : P) (padd pmul psub : P -> P -> P) (popp : P -> P),
+  ring_theory pO pI padd pmul psub popp eq ->
+  forall E : P -> R,
+  (forall a b : P, E (padd a b) = rmul (E a) (E b)) ->
+  E pO = rI ->
+  (forall a : P, conj (E a) = E (popp a)) ->
+  forall (chalf lam : P) (br bc : bool) (tr tc : P) (fr fc : nat -> P) (dz : P) (x : nat -> nat -> R),
+  eq2 R N1 N2
+    (propagate rO radd rmul N1 w1 Ninv1 N2 w2 Ninv2
+       (fun k1 k2 : nat =>
+        conj (fresnel_kernel_code rmul padd pmul popp E chalf lam br bc tr tc fr fc dz k1 k2))
+       (propagate rO radd rmul N1 w1 Ninv1 N2 w2 Ninv2
+          (fresnel_kernel_code rmul padd pmul popp E chalf lam br bc tr tc fr fc dz) x)) x.
+Proof. exact fresnel_backpropagate. Qed.
+Print Assumptions C16_fresnel_backpropagate.
+
+(* pure-phase object + the Fresnel kernels of ANY list of slice thicknesses: the summed predicted intensity is the
+   summed probe intensity; the hypothesis on the propagators of C16_pure_phase_intensity is discharged *)
+Theorem C16_fresnel_pure_phase_intensity :
+  forall (R : Type) (rO rI : R) (radd rmul rsub : R -> R -> R) (ropp : R -> R),
+  ring_theory rO rI radd rmul rsub ropp eq ->
+  forall conj : R -> R,
+  conj_ok radd rmul conj ->
+  forall (N1 : nat) (w1 : Z -> R) (Ninv1 : R) (N2 : nat) (w2 : Z -> R) (Ninv2 : R),
+  root_ok rO rI radd rmul conj N1 w1 Ninv1 ->
+  root_ok rO rI radd rmul conj N2 w2 Ninv2 ->
+  forall (P : Type) (pO pI : P) (padd pmul psub : P -> P -> P) (popp : P -> P),
+  ring_theory pO pI padd pmul psub popp eq ->
+  forall E : P -> R,
+  (forall a b : P, E (padd a b) = rmul (E a) (E b)) ->
+  E pO = rI ->
+  (forall a : P, conj (E a) = E (popp a)) ->
+  forall rs rsi : R,
+  rmul rs (conj rs) = rmul Ninv1 Ninv2 ->
+  rmul rs rsi = rI ->
+  forall (chalf lam : P) (br bc : bool) (tr tc : P) (fr fc : nat -> P) (thick : list P)
+    (objs probes : list (nat -> nat -> R)),
+  Forall (unit2 R rI rmul conj N1 N2) objs ->
+  total_intensity rO radd rmul conj N1 w1 N2 w2 rs
+    (map
+       (overlap_projection rO radd rmul N1 w1 Ninv1 N2 w2 Ninv2 objs
+          (propagator_arrays rmul padd pmul popp E chalf lam br bc tr tc fr fc thick)) probes) =
+  suml rO radd (map (energy2 rO radd rmul conj N1 N2) probes).
+Proof. exact fresnel_pure_phase_intensity. Qed.
+Print Assumptions C16_fresnel_pure_phase_intensity.
+
+(* the library's whole forward pass for one pattern (sub-pixel shifted probe modes, multislice with Fresnel
+   kernels, descan ramp in real space, detector): summed predicted intensity = summed probe intensity *)
+Theorem C16_forward_pass_intensity :
+  forall (R : Type) (rO rI : R) (radd rmul rsub : R -> R -> R) (ropp : R -> R),
+  ring_theory rO rI radd rmul rsub ropp eq ->
+  forall conj : R -> R,
+  conj_ok radd rmul conj ->
+  forall (N1 : nat) (w1 : Z -> R) (Ninv1 : R) (N2 : nat) (w2 : Z -> R) (Ninv2 : R),
+  root_ok rO rI radd rmul conj N1 w1 Ninv1 ->
+  root_ok rO rI radd rmul conj N2 w2 Ninv2 ->
+  forall (P : Type) (pO pI : P) (padd pmul psub : P -> P -> P) (popp : P -> P),
+  ring_theory pO pI padd pmul psub popp eq ->
+  forall E : P -> R,
+  (forall a b : P, E (padd a b) = rmul (E a) (E b)) ->
+  E pO = rI ->
+  (forall a : P, conj (E a) = E (popp a)) ->
+  forall rs rsi : R,
+  rmul rs (conj rs) = rmul Ninv1 Ninv2 ->
+  rmul rs rsi = rI ->
+  forall (chalf lam : P) (br bc : bool) (tr tc : P) (fr fc : nat -> P) (thick : list P)
+    (f1 f2 : nat -> P) (s1 s2 : P) (g1 g2 : nat -> P) (d1 d2 : P)
+    (objs probes : list (nat -> nat -> R)),
+  Forall (unit2 R rI rmul conj N1 N2) objs ->
+  total_intensity rO radd rmul conj N1 w1 N2 w2 rs
+    (map
+       (forward_operator rO radd rmul N1 w1 Ninv1 N2 w2 Ninv2 objs
+          (propagator_arrays rmul padd pmul popp E chalf lam br bc tr tc fr fc thick)
+          (shift_ramp pmul popp E f1 s1) (shift_ramp pmul popp E f2 s2) (shift_ramp pmul popp E g1 d1)
+          (shift_ramp pmul popp E g2 d2)) probes) =
+  suml rO radd (map (energy2 rO radd rmul conj N1 N2) probes).
+Proof. exact forward_pass_intensity. Qed.
+Print Assumptions C16_forward_pass_intensity.
+
+(* gradient_step: the current exit wave plus the step IS the projected exit wave *)
+Theorem C16_gradient_step_plus :
+  forall (R : Type) (rO rI : R) (radd rmul rsub : R -> R -> R) (ropp : R -> R),
+  ring_theory rO rI radd rmul rsub ropp eq ->
+  forall conj : R -> R,
+  conj_ok radd rmul conj ->
+  forall (N1 : nat) (w1 : Z -> R) (Ninv1 : R) (N2 : nat) (w2 : Z -> R) (Ninv2 : R),
+  root_ok rO rI radd rmul conj N1 w1 Ninv1 ->
+  root_ok rO rI radd rmul conj N2 w2 Ninv2 ->
+  forall rs rsi : R,
+  rmul rs (conj rs) = rmul Ninv1 Ninv2 ->
+  rmul rs rsi = rI ->
+  forall (ph : R -> R) (amp : R -> Prop),
+  (forall a : R, amp a -> conj a = a) ->
+  (forall z : R, abs2 rmul conj (ph z) = rI) ->
+  (forall a u : R, amp a -> abs2 rmul conj u = rI -> rmul a (ph (rmul a u)) = rmul a u) ->
+  forall a psi : nat -> nat -> R,
+  eq2 R N1 N2
+    (fun i j : nat =>
+     radd (psi i j) (gradient_step rO radd rmul rsub N1 w1 Ninv1 N2 w2 Ninv2 rs rsi ph a psi i j))
+    (fourier_projection rO radd rmul N1 w1 Ninv1 N2 w2 Ninv2 rs rsi ph a psi).
+Proof. exact gradient_step_plus. Qed.
+Print Assumptions C16_gradient_step_plus.
+
+(* the step vanishes at a projected exit wave *)
+Theorem C16_gradient_step_fixed_point :
+  forall (R : Type) (rO rI : R) (radd rmul rsub : R -> R -> R) (ropp : R -> R),
+  ring_theory rO rI radd rmul rsub ropp eq ->
+  forall conj : R -> R,
+  conj_ok radd rmul conj ->
+  forall (N1 : nat) (w1 : Z -> R) (Ninv1 : R) (N2 : nat) (w2 : Z -> R) (Ninv2 : R),
+  root_ok rO rI radd rmul conj N1 w1 Ninv1 ->
+  root_ok rO rI radd rmul conj N2 w2 Ninv2 ->
+  forall rs rsi : R,
+  rmul rs (conj rs) = rmul Ninv1 Ninv2 ->
+  rmul rs rsi = rI ->
+  forall (ph : R -> R) (amp : R -> Prop),
+  (forall a : R, amp a -> conj a = a) ->
+  (forall z : R, abs2 rmul conj (ph z) = rI) ->
+  (forall a u : R, amp a -> abs2 rmul conj u = rI -> rmul a (ph (rmul a u)) = rmul a u) ->
+  forall a psi : nat -> nat -> R,
+  amp2 R N1 N2 amp a ->
+  eq2 R N1 N2
+    (gradient_step rO radd rmul rsub N1 w1 Ninv1 N2 w2 Ninv2 rs rsi ph a
+       (fourier_projection rO radd rmul N1 w1 Ninv1 N2 w2 Ninv2 rs rsi ph a psi))
+    (fun _ _ : nat => rO).
+Proof. exact gradient_step_fixed_point. Qed.
+Print Assumptions C16_gradient_step_fixed_point.
+
+(* after one full step the detector sees exactly the measured amplitudes (squared) *)
+Theorem C16_gradient_step_detector :
+  forall (R : Type) (rO rI : R) (radd rmul rsub : R -> R -> R) (ropp : R -> R),
+  ring_theory rO rI radd rmul rsub ropp eq ->
+  forall conj : R -> R,
+  conj_ok radd rmul conj ->
+  forall (N1 : nat) (w1 : Z -> R) (Ninv1 : R) (N2 : nat) (w2 : Z -> R) (Ninv2 : R),
+  root_ok rO rI radd rmul conj N1 w1 Ninv1 ->
+  root_ok rO rI radd rmul conj N2 w2 Ninv2 ->
+  forall rs rsi : R,
+  rmul rs (conj rs) = rmul Ninv1 Ninv2 ->
+  rmul rs rsi = rI ->
+  forall (ph : R -> R) (amp : R -> Prop),
+  (forall a : R, amp a -> conj a = a) ->
+  (forall z : R, abs2 rmul conj (ph z) = rI) ->
+  (forall a u : R, amp a -> abs2 rmul conj u = rI -> rmul a (ph (rmul a u)) = rmul a u) ->
+  forall a psi : nat -> nat -> R,
+  amp2 R N1 N2 amp a ->
+  eq2 R N1 N2
+    (detector_forward rO radd rmul conj N1 w1 N2 w2 rs
+       [fun i j : nat =>
+        radd (psi i j) (gradient_step rO radd rmul rsub N1 w1 Ninv1 N2 w2 Ninv2 rs rsi ph a psi i j)])
+    (fun n1 n2 : nat => rmul (a n1 n2) (a n1 n2)).
+Proof. exact gradient_step_detector. Qed.
+Print Assumptions C16_gradient_step_detector.
+
+(* where the spectrum F of psi has the polar form m * ph F with real m (its modulus), the squared norm of the
+   step is the squared amplitude misfit sum_k (a_k - m_k)^2 (the l2-amplitude error of the pattern) *)
+Theorem C16_gradient_step_energy :
+  forall (R : Type) (rO rI : R) (radd rmul rsub : R -> R -> R) (ropp : R -> R),
+  ring_theory rO rI radd rmul rsub ropp eq ->
+  forall conj : R -> R,
+  conj_ok radd rmul conj ->
+  forall (N1 : nat) (w1 : Z -> R) (Ninv1 : R) (N2 : nat) (w2 : Z -> R) (Ninv2 : R),
+  root_ok rO rI radd rmul conj N1 w1 Ninv1 ->
+  root_ok rO rI radd rmul conj N2 w2 Ninv2 ->
+  forall rs rsi : R,
+  rmul rs (conj rs) = rmul Ninv1 Ninv2 ->
+  rmul rs rsi = rI ->
+  forall (ph : R -> R) (amp : R -> Prop),
+  (forall a : R, amp a -> conj a = a) ->
+  (forall z : R, abs2 rmul conj (ph z) = rI) ->
+  (forall a u : R, amp a -> abs2 rmul conj u = rI -> rmul a (ph (rmul a u)) = rmul a u) ->
+  forall a psi m : nat -> nat -> R,
+  amp2 R N1 N2 amp a ->
+  (forall k1 k2 : nat,
+   k1 < N1 ->
+   k2 < N2 ->
+   dft2_ortho rO radd rmul N1 w1 N2 w2 rs psi k1 k2 =
+   rmul (m k1 k2) (ph (dft2_ortho rO radd rmul N1 w1 N2 w2 rs psi k1 k2)) /\ 
+   conj (m k1 k2) = m k1 k2) ->
+  energy2 rO radd rmul conj N1 N2
+    (gradient_step rO radd rmul rsub N1 w1 Ninv1 N2 w2 Ninv2 rs rsi ph a psi) =
+  sum2 rO radd N1 N2
+    (fun k1 k2 : nat =>
+     rmul (rsub (ifftshift2 N1 N2 a k1 k2) (m k1 k2)) (rsub (ifftshift2 N1 N2 a k1 k2) (m k1 k2))).
+Proof. exact gradient_step_energy. Qed.
+Print Assumptions C16_gradient_step_energy.
+
+(* mixed state: every mode's step vanishes at a projected stack of exit waves (estimate non-zero) *)
+Theorem C16_gradient_step_mixed_fixed_point :
+  forall (R : Type) (rO rI : R) (radd rmul rsub : R -> R -> R) (ropp : R -> R),
+  ring_theory rO rI radd rmul rsub ropp eq ->
+  forall conj : R -> R,
+  conj_ok radd rmul conj ->
+  forall (N1 : nat) (w1 : Z -> R) (Ninv1 : R) (N2 : nat) (w2 : Z -> R) (Ninv2 : R),
+  root_ok rO rI radd rmul conj N1 w1 Ninv1 ->
+  root_ok rO rI radd rmul conj N2 w2 Ninv2 ->
+  forall rs rsi : R,
+  rmul rs (conj rs) = rmul Ninv1 Ninv2 ->
+  rmul rs rsi = rI ->
+  forall (ph : R -> R) (amp : R -> Prop),
+  (forall a : R, amp a -> conj a = a) ->
+  (forall z : R, abs2 rmul conj (ph z) = rI) ->
+  (forall a u : R, amp a -> abs2 rmul conj u = rI -> rmul a (ph (rmul a u)) = rmul a u) ->
+  forall isq : R -> R,
+  (forall a : R, amp a -> rmul (rmul a (isq (rmul a a))) a = a) ->
+  forall (a : nat -> nat -> R) (psis : list (nat -> nat -> R)),
+  amp2 R N1 N2 amp a ->
+  isq_ok R rO rI radd rmul conj N1 w1 N2 w2 rs isq psis ->
+  Forall (fun g : nat -> nat -> R => eq2 R N1 N2 g (fun _ _ : nat => rO))
+    (gradient_step_mixed rO radd rmul rsub N1 w1 Ninv1 N2 w2 Ninv2 conj rs rsi isq rO a
+       (fourier_projection_mixed rO radd rmul conj N1 w1 Ninv1 N2 w2 Ninv2 rs rsi isq rO a psis)).
+Proof. exact gradient_step_mixed_fixed_point. Qed.
+Print Assumptions C16_gradient_step_mixed_fixed_point.
+
+(* several slices: obj_flat[:, idx] and the per-slice sum_patches of ObjectPixelated.backward are adjoint *)
+Theorem C16_scatter_adjoint_gather_slices :
+  forall (R : Type) (rO rI : R) (radd rmul rsub : R -> R -> R) (ropp : R -> R),
+  ring_theory rO rI radd rmul rsub ropp eq ->
+  forall (size : nat) (idx : list nat),
+  Forall (fun i : nat => i < size) idx ->
+  forall (objs : list (nat -> R)) (valss : list (list R)),
+  ldot_slices rO radd rmul (gather_slices objs idx) valss =
+  adot_slices rO radd rmul size objs (scatter_slices rO radd idx valss).
+Proof. exact scatter_adjoint_gather_slices. Qed.
+Print Assumptions C16_scatter_adjoint_gather_slices.
+
+(* ============================================================================== non-vacuity (round 3) *)
+(* phases P = Z, E m = w4(-m) = i^m: a non-trivial character into Q(i) with E(a+b) = E a E b, E 0 = 1, conj(E a) = E(-a) *)
+Example C16_nonvacuous_character :
+  ring_theory 0%Z 1%Z Z.add Z.mul Z.sub Z.opp eq /\
+  (forall a b : Z, EZ (a + b) = cmul (EZ a) (EZ b)) /\
+  EZ 0 = c1 /\ (forall a : Z, cconj (EZ a) = EZ (- a)) /\ EZ 1 <> c1.
+Proof. exact C16k_character. Qed.
+
+(* shift ramp over the grid f k = k: energy, additivity, inverse, integer roll, for all integer shifts *)
+Example C16_nonvacuous_ramp :
+  forall (s1 s2 t1 t2 : Z) (x : nat -> nat -> C),
+  energy2 c0 cadd cmul cconj 4 4
+    (fourier_shift c0 cadd cmul 4 w4 quarter 4 w4 quarter (shift_ramp Z.mul Z.opp EZ fZ s1)
+       (shift_ramp Z.mul Z.opp EZ fZ s2) x) = energy2 c0 cadd cmul cconj 4 4 x /\
+  eq2 C 4 4
+    (fourier_shift c0 cadd cmul 4 w4 quarter 4 w4 quarter (shift_ramp Z.mul Z.opp EZ fZ s1)
+       (shift_ramp Z.mul Z.opp EZ fZ s2)
+       (fourier_shift c0 cadd cmul 4 w4 quarter 4 w4 quarter (shift_ramp Z.mul Z.opp EZ fZ t1)
+          (shift_ramp Z.mul Z.opp EZ fZ t2) x))
+    (fourier_shift c0 cadd cmul 4 w4 quarter 4 w4 quarter (shift_ramp Z.mul Z.opp EZ fZ (s1 + t1)%Z)
+       (shift_ramp Z.mul Z.opp EZ fZ (s2 + t2)%Z) x) /\
+  eq2 C 4 4
+    (fourier_shift c0 cadd cmul 4 w4 quarter 4 w4 quarter (shift_ramp Z.mul Z.opp EZ fZ (- s1)%Z)
+       (shift_ramp Z.mul Z.opp EZ fZ (- s2)%Z)
+       (fourier_shift c0 cadd cmul 4 w4 quarter 4 w4 quarter (shift_ramp Z.mul Z.opp EZ fZ s1)
+          (shift_ramp Z.mul Z.opp EZ fZ s2) x)) x /\
+  eq2 C 4 4
+    (fourier_shift c0 cadd cmul 4 w4 quarter 4 w4 quarter (shift_ramp Z.mul Z.opp EZ fZ s1)
+       (shift_ramp Z.mul Z.opp EZ fZ s2) x) (roll2 4 4 s1 s2 x).
+Proof. exact C16k_ramp. Qed.
+
+(* ... and that ramp is not the constant 1 *)
+Example C16_nonvacuous_ramp_nontrivial :
+  shift_ramp Z.mul Z.opp EZ fZ 1%Z 1 <> c1.
+Proof. exact C16k_ramp_nontrivial. Qed.
+
+(* Fresnel kernel (with or without tilt factors): energy, inverse by the negated distance, additivity, conjugate kernel *)
+Example C16_nonvacuous_fresnel :
+  forall (lam tr tc dz dz' : Z) (br bc : bool) (x : nat -> nat -> C),
+  energy2 c0 cadd cmul cconj 4 4
+    (propagate c0 cadd cmul 4 w4 quarter 4 w4 quarter
+       (fresnel_kernel_code cmul Z.add Z.mul Z.opp EZ 1%Z lam br bc tr tc fZ fZ dz) x) =
+  energy2 c0 cadd cmul cconj 4 4 x /\
+  eq2 C 4 4
+    (propagate c0 cadd cmul 4 w4 quarter 4 w4 quarter
+       (fresnel_kernel_code cmul Z.add Z.mul Z.opp EZ 1%Z lam br bc tr tc fZ fZ (- dz)%Z)
+       (propagate c0 cadd cmul 4 w4 quarter 4 w4 quarter
+          (fresnel_kernel_code cmul Z.add Z.mul Z.opp EZ 1%Z lam br bc tr tc fZ fZ dz) x)) x /\
+  eq2 C 4 4
+    (propagate c0 cadd cmul 4 w4 quarter 4 w4 quarter
+       (fresnel_kernel_code cmul Z.add Z.mul Z.opp EZ 1%Z lam br bc tr tc fZ fZ dz)
+       (propagate c0 cadd cmul 4 w4 quarter 4 w4 quarter
+          (fresnel_kernel_code cmul Z.add Z.mul Z.opp EZ 1%Z lam br bc tr tc fZ fZ dz') x))
+    (propagate c0 cadd cmul 4 w4 quarter 4 w4 quarter
+       (fresnel_kernel_code cmul Z.add Z.mul Z.opp EZ 1%Z lam br bc tr tc fZ fZ (dz + dz')%Z) x) /\
+  eq2 C 4 4
+    (propagate c0 cadd cmul 4 w4 quarter 4 w4 quarter
+       (fun k1 k2 : nat =>
+        cconj (fresnel_kernel_code cmul Z.add Z.mul Z.opp EZ 1%Z lam br bc tr tc fZ fZ dz k1 k2))
+       (propagate c0 cadd cmul 4 w4 quarter 4 w4 quarter
+          (fresnel_kernel_code cmul Z.add Z.mul Z.opp EZ 1%Z lam br bc tr tc fZ fZ dz) x)) x.
+Proof. exact C16k_fresnel. Qed.
+
+(* ... a tilted kernel that is not constant *)
+Example C16_nonvacuous_fresnel_nontrivial :
+  fresnel_kernel_code cmul Z.add Z.mul Z.opp EZ 1%Z 1%Z true false 1%Z 0%Z fZ fZ 1%Z 1 0 <> c1.
+Proof. exact C16k_fresnel_nontrivial. Qed.
+
+(* coded product = single exponential, with both tilt factors and with both skipped *)
+Example C16_nonvacuous_fresnel_shape :
+  forall (lam tr tc dz : Z) (k1 k2 : nat),
+  fresnel_kernel_code cmul Z.add Z.mul Z.opp EZ 1%Z lam true true tr tc fZ fZ dz k1 k2 =
+  fresnel_kernel Z.add Z.mul Z.opp EZ 1%Z lam tr tc fZ fZ dz k1 k2 /\
+  fresnel_kernel_code cmul Z.add Z.mul Z.opp EZ 1%Z lam false false 0%Z 0%Z fZ fZ dz k1 k2 =
+  fresnel_kernel Z.add Z.mul Z.opp EZ 1%Z lam 0%Z 0%Z fZ fZ dz k1 k2.
+Proof. exact C16k_fresnel_shape. Qed.
+
+(* three unit-modulus slices, two Fresnel kernels (tilted), two probe modes *)
+Example C16_nonvacuous_fresnel_pure_phase :
+  forall (lam tr tc t1 t2 : Z) (P Q : nat -> nat -> C),
+  total_intensity c0 cadd cmul cconj 4 w4 4 w4 quarter
+    (map
+       (overlap_projection c0 cadd cmul 4 w4 quarter 4 w4 quarter [ikernel 1; ikernel 2; ikernel 3]
+          (propagator_arrays cmul Z.add Z.mul Z.opp EZ 1%Z lam true false tr tc fZ fZ [t1; t2]))
+       [P; Q]) = cadd (energy2 c0 cadd cmul cconj 4 4 P) (cadd (energy2 c0 cadd cmul cconj 4 4 Q) c0).
+Proof. exact C16k_fresnel_pure_phase. Qed.
+
+(* the forward pass with sub-pixel ramp, Fresnel kernels, descan ramp *)
+Example C16_nonvacuous_forward_pass :
+  forall (lam tr tc t1 t2 s1 s2 d1 d2 : Z) (P Q : nat -> nat -> C),
+  total_intensity c0 cadd cmul cconj 4 w4 4 w4 quarter
+    (map
+       (forward_operator c0 cadd cmul 4 w4 quarter 4 w4 quarter [ikernel 1; ikernel 2; ikernel 3]
+          (propagator_arrays cmul Z.add Z.mul Z.opp EZ 1%Z lam true true tr tc fZ fZ [t1; t2])
+          (shift_ramp Z.mul Z.opp EZ fZ s1) (shift_ramp Z.mul Z.opp EZ fZ s2)
+          (shift_ramp Z.mul Z.opp EZ fZ d1) (shift_ramp Z.mul Z.opp EZ fZ d2)) [
+       P; Q]) = cadd (energy2 c0 cadd cmul cconj 4 4 P) (cadd (energy2 c0 cadd cmul cconj 4 4 Q) c0).
+Proof. exact C16k_forward_pass. Qed.
+
+(* gradient_step with amplitudes in {0,1} *)
+Example C16_nonvacuous_gradient_step :
+  forall a psi : nat -> nat -> C,
+  amp2 C 4 4 iamp a ->
+  eq2 C 4 4
+    (fun i j : nat =>
+     cadd (psi i j)
+       (gradient_step c0 cadd cmul csub 4 w4 quarter 4 w4 quarter quarter four iph a psi i j))
+    (fourier_projection c0 cadd cmul 4 w4 quarter 4 w4 quarter quarter four iph a psi) /\
+  eq2 C 4 4
+    (gradient_step c0 cadd cmul csub 4 w4 quarter 4 w4 quarter quarter four iph a
+       (fourier_projection c0 cadd cmul 4 w4 quarter 4 w4 quarter quarter four iph a psi))
+    (fun _ _ : nat => c0) /\
+  eq2 C 4 4
+    (detector_forward c0 cadd cmul cconj 4 w4 4 w4 quarter
+       [fun i j : nat =>
+        cadd (psi i j)
+          (gradient_step c0 cadd cmul csub 4 w4 quarter 4 w4 quarter quarter four iph a psi i j)])
+    (fun n1 n2 : nat => cmul (a n1 n2) (a n1 n2)).
+Proof. exact C16k_gradient_step. Qed.
+
+(* exit wave with flat unit spectrum (modulus 1): |step|^2 = sum_k (a_k - 1)^2 *)
+Example C16_nonvacuous_gradient_step_energy :
+  forall a : nat -> nat -> C,
+  amp2 C 4 4 iamp a ->
+  energy2 c0 cadd cmul cconj 4 4
+    (gradient_step c0 cadd cmul csub 4 w4 quarter 4 w4 quarter quarter four iph a iflat) =
+  sum2 c0 cadd 4 4
+    (fun k1 k2 : nat => cmul (csub (ifftshift2 4 4 a k1 k2) c1) (csub (ifftshift2 4 4 a k1 k2) c1)).
+Proof. exact C16k_gradient_step_energy. Qed.
+
+(* mixed-state step at a projected stack *)
+Example C16_nonvacuous_gradient_step_mixed :
+  forall a : nat -> nat -> C,
+  amp2 C 4 4 iamp a ->
+  Forall (fun g : nat -> nat -> C => eq2 C 4 4 g (fun _ _ : nat => c0))
+    (gradient_step_mixed c0 cadd cmul csub 4 w4 quarter 4 w4 quarter cconj quarter four iisq c0 a
+       (fourier_projection_mixed c0 cadd cmul cconj 4 w4 quarter 4 w4 quarter quarter four iisq c0 a
+          [iflat])).
+Proof. exact C16k_gradient_step_mixed. Qed.
+
+(* two slices over Z, repeated indices *)
+Example C16_nonvacuous_scatter_slices :
+  forall (o1 o2 : nat -> Z) (u1 u2 u3 v1 v2 v3 : Z),
+  ldot_slices 0%Z Z.add Z.mul (gather_slices [o1; o2] [4; 1; 4]) [[u1; u2; u3]; [v1; v2; v3]] =
+  adot_slices 0%Z Z.add Z.mul 6 [o1; o2]
+    (scatter_slices 0%Z Z.add [4; 1; 4] [[u1; u2; u3]; [v1; v2; v3]]).
+Proof. exact C16k_scatter_slices. Qed.
+
+(* the rational phase instance used by the check: fftfreq(5, 1/2) and the ramp phases (turns) of a 2 x 3 grid shifted by (1/2, 3) *)
+Example C16_nonvacuous_fftfreq :
+  map (fun k : nat => Qred (C16K.fftfreq_q 5 (1 # 2) k)) (seq 0 5) =
+  [0%Q; (2 # 5)%Q; (4 # 5)%Q; (-4 # 5)%Q; (-2 # 5)%Q] /\
+  C16K.ramp_phases 2 3 (1 # 2) 3 = [[0%Q; (-1)%Q; 1%Q]; [(1 # 4)%Q; (-3 # 4)%Q; (5 # 4)%Q]].
+Proof. exact C16k_fftfreq_example. Qed.
